@@ -243,52 +243,3 @@ Print Assumptions C14_model_Q_is_R.
 Print Assumptions C14_range_table_names.
 Print Assumptions C14_constructors.
 Print Assumptions C14_steps_value_float_partial.
-
-(* ---- composition with the generated kinematics / wrappers / grid-resolution / simple phase-matching models (Proofs/Compose_*.v) ---- *)
-From SpdVerif Require Import Gen.GridRes Proofs.Compose_gridres.
-
-(* set_resolution / with_resolution of FrequencySpace, SumDiffFrequencySpace and WavelengthSpace, translated from
-   src/jsa/si_iterator.rs (Gen/GridRes.v): the same function for the three representations — both counts become res, the four
-   end points stay — and with_resolution is set_resolution on the moved value.  fs_res / sd_res / ws_res apply it to a space. *)
-Theorem C14_set_resolution : forall (T : Type) (x0 x1 : T) nx (y0 y1 : T) ny res,
-  fs_set_resolution x0 x1 nx y0 y1 ny res = ((x0, x1, res), (y0, y1, res)) /\
-  sd_set_resolution x0 x1 nx y0 y1 ny res = ((x0, x1, res), (y0, y1, res)) /\
-  ws_set_resolution x0 x1 nx y0 y1 ny res = ((x0, x1, res), (y0, y1, res)) /\
-  fs_with_resolution x0 x1 nx y0 y1 ny res = fs_set_resolution x0 x1 nx y0 y1 ny res /\
-  sd_with_resolution x0 x1 nx y0 y1 ny res = sd_set_resolution x0 x1 nx y0 y1 ny res /\
-  ws_with_resolution x0 x1 nx y0 y1 ny res = ws_set_resolution x0 x1 nx y0 y1 ny res.
-Proof. exact gridres_same. Qed.
-Print Assumptions C14_set_resolution.
-
-(* the re-sampled grid: res * res points in the documented order, first point (x0, y0), last point (x1, y1) *)
-Theorem C14_set_resolution_grid : forall (s : space R) res,
-  length (on_space (seq2d Rops) (fs_res s res)) = (res * res)%nat.
-Proof. exact gridres_seq_length. Qed.
-Print Assumptions C14_set_resolution_grid.
-
-Theorem C14_set_resolution_corners : forall (s : space R) res, (1 <= res)%nat ->
-  on_space (fun a b n c d m => steps2d_value Rops a b n c d m 0) (fs_res s res) = (ax_lo (fst s), ax_lo (snd s)) /\
-  ((2 <= res)%nat ->
-   on_space (fun a b n c d m => steps2d_value Rops a b n c d m (res * res - 1)) (fs_res s res) = (ax_hi (fst s), ax_hi (snd s))).
-Proof. exact gridres_corners. Qed.
-Print Assumptions C14_set_resolution_corners.
-
-(* changing the resolution commutes with every conversion between the three representations (the conversions carry the counts
-   through unchanged): it does not matter at which point of a conversion chain the resolution is set *)
-Theorem C14_set_resolution_commutes_with_conversions : forall (s : space R) res,
-  to_fs (ws_res s res) = fs_res (to_fs s) res /\
-  to_ws (fs_res s res) = ws_res (to_ws s) res /\
-  to_sd (fs_res s res) = sd_res (to_sd s) res /\
-  of_sd (sd_res s res) = fs_res (of_sd s) res.
-Proof. exact gridres_commutes_with_conversions. Qed.
-Print Assumptions C14_set_resolution_commutes_with_conversions.
-
-(* SumDiffFrequencySpace::new, Steps2D::new store their two axes in the order given; Steps2D::ranges returns the end points, x first *)
-Theorem C14_constructors_and_ranges : forall (T : Type) (xa xb : T) xn (ya yb : T) yn,
-  sd_new xa xb xn ya yb yn = ((xa, xb, xn), (ya, yb, yn)) /\ steps2d_new xa xb xn ya yb yn = ((xa, xb, xn), (ya, yb, yn)) /\
-  steps2d_ranges xa xb xn ya yb yn = ((xa, xb), (ya, yb)).
-Proof. exact gridres_new. Qed.
-Print Assumptions C14_constructors_and_ranges.
-
-Example C14_set_resolution_example : (1 <= 2)%nat /\ (2 <= 2)%nat.
-Proof. split; lia. Qed.
